@@ -84,7 +84,7 @@ func (g *treeGen) after(reveal bool) Node {
 	case 5, 6:
 		v = g.T + 1
 	default:
-		v = rapid.Int64Range(-(1 << 40), 1<<40).Draw(g.t, "afterAny")
+		v = rapid.Int64Range(-(1<<40), 1<<40).Draw(g.t, "afterAny")
 	}
 	return Node{K: "after", T: v}
 }
